@@ -12,70 +12,70 @@ CLAIMED = {
 }
 
 CLAIMED["C06"] = {
-  "text": "Seeded search over whole-run histories with fault injection: first life (optionally aborted by an exception of a seed-chosen kind raised inside a seed-chosen interface at a seed-chosen hook/cycle/node/iteration), optional restart from a seed-chosen node of the file left behind (with its own optional abort), then a post-mortem reader. The model is a log of acknowledged writes (content hash of the HDF5 group, sentinel of every object by serial number, every location). Oracles on the file in the working directory: opens; completion flag; listing == log (multiset, chronological, hasTimeStep); every group content-identical to its acknowledgement; loads return the sentinels of that write; duplicate writes refused; history by identity and by location == log after shuffles; merge == groups before the restart point, unchanged, source untouched; split == requested steps renumbered, backup identical; error snapshot holds the state at the failure. Sampling, not proof.",
+  "text": "Seeded search over whole-run histories with fault injection: first life (optionally aborted by an exception of a seed-chosen kind raised inside a seed-chosen interface at a seed-chosen hook/cycle/node/iteration), optional restart from a seed-chosen node of the file left behind (with its own optional abort), then a post-mortem reader. The model is a log of acknowledged writes (content hash of the HDF5 group, sentinel of every object by serial number, every location). Oracles on the file in the working directory: opens; completion flag; listing == log (multiset, chronological, hasTimeStep); every group content-identical to its acknowledgement; loads return the sentinels of that write; duplicate writes refused; history by identity and by location == log after shuffles; merge == groups before the restart point, unchanged, source untouched; split == requested steps renumbered, backup identical; error snapshot holds the state at the failure. Added later (DESIGN §13): zero-step and outage cycles in detailed histories, an iteration cap of 0, coupled quantities that move between nodes and couplers that hand out a live list, same-function interface replacement, exclusion probes. Added later (DESIGN §13): a mid-run reader that hash-checks and also loads the run's first snapshot inside the running process (then the next objects to be born must not reuse a live serial number), fresh assemblies charged mid-run, history queries through the database interface and the history tracker around the node write, split with steps in descending order and a history query on the split file, a disk-full configuration (one-shot ENOSPC inside the writer), Cartesian cores. Sampling, not proof.",
   "design_ref": "DESIGN.md §3.4",
   "note": "Trusted: the write-log observer (wraps Database.writeToDB to see acknowledgements), h5py/HDF5 (I/O in C: no torn writes inside the file), SimOS latency below armi's own time-outs. Single failure per life; failures are exceptions that run the error hooks, not kill -9.",
   "technique": "deterministic simulation with fault injection (abort/restart at seeded crash points, lagging mv/cp, clock jumps); history checked against a write-log reference model",
 }
 
 CLAIMED["C04"] = {
-  "text": "Seeded search over reactor states reached inside real runs: sim actors change parameters of several value kinds on every level, number densities, temperatures, dimensions, block heights, rotate assemblies and swap them through the real fuel handler between database writes; at every acknowledged write an observational digest of the live reactor is taken through public queries (tree, names, serial numbers, child order, grids, locators, global coordinates, every persistent parameter, materials, temperatures, dimensions with links, number densities, area/volume/mass). The reader loads a seed-chosen sample of snapshots and compares field by field, loads twice, saves the loaded reactor to a new file and loads that. Sampling, not proof.",
+  "text": "Seeded search over reactor states reached inside real runs: sim actors change parameters of several value kinds on every level, number densities, temperatures, dimensions, block heights, rotate assemblies and swap them through the real fuel handler between database writes; at every acknowledged write an observational digest of the live reactor is taken through public queries (tree, names, serial numbers, child order, grids, locators, global coordinates, every persistent parameter, materials, temperatures, dimensions with links, number densities, area/volume/mass). The reader loads a seed-chosen sample of snapshots and compares field by field, loads twice, saves the loaded reactor to a new file and loads that. Added later (DESIGN §13): Cartesian cores (full/quarter, centred on an assembly or a corner), pin lattices with an empty position, non-integer system origins, discharge to the pool, geometry conversion as a step, a user-forced persistent parameter (forceDbParams), a parameter first assigned beside an open retainState scope, a no-default parameter on single objects, and a second write of a node after a rotation. Sampling, not proof.",
   "design_ref": "DESIGN.md §3.5",
   "note": "Trusted: the digest/compare code (worlds/obsdigest.py), h5py. Comparison rules fixed in DESIGN.md: 1e-12 relative, sequences by value, unassigned == default, child order vs the model's own sort, free-coordinate vs index locator accepted when global coordinates agree. Workloads keep the state physical (no component overlap) and derived mass parameters consistent.",
   "technique": "deterministic simulation of runs writing to real HDF5 storage; write/restart-load round trip checked against an observational digest taken at acknowledgement time",
 }
 
 CLAIMED["C05"] = {
-  "text": "Seeded search over the database as a key->value store on a real HDF5 file with writer/reader configuration skew: a writer process (seed-chosen extra flags in a seed-chosen order) performs 6-40 transactions, each assigning one per-object collection (27 value kinds x 6 None patterns x value seed, incl. numeric extremes, the encoder's own None markers, ragged/empty/nested/dict/flag values) to one untyped parameter of one object class and writing a snapshot through writeToDB or the direct _writeParams/_readParams path; a reader process with a permuted superset of the flags loads every accepted snapshot. Oracle: the statement's normalisations only (sequence<->array, empty ragged entry may be unset, NaN is unset for reals) or refusal at write time; a different value or a read-time error is the violation. Sampling, not proof.",
+  "text": "Seeded search over the database as a key->value store on a real HDF5 file with writer/reader configuration skew: a writer process (seed-chosen extra flags in a seed-chosen order) performs 6-40 transactions, each assigning one per-object collection (27 value kinds x 6 None patterns x value seed, incl. numeric extremes, the encoder's own None markers, ragged/empty/nested/dict/flag values) to one untyped parameter of one object class and writing a snapshot through writeToDB or the direct _writeParams/_readParams path; a reader process with a permuted superset of the flags loads every accepted snapshot. Oracle: the statement's normalisations only (sequence<->array, empty ragged entry may be unset, NaN is unset for reals) or refusal at write time; a different value or a read-time error is the violation. Added later (DESIGN §13): collections mixing kinds (int/float, number/text, bool/int), 2-D entries that are not C-contiguous, arrays with unset values inside them, a second writer process with the same flags in another order (the one reader reads file 1, file 2, file 1), flags of every object, and after every refused write the file must not hold the snapshot. Sampling, not proof.",
   "design_ref": "DESIGN.md §3.5",
   "note": "Trusted: the comparison code in worlds/c05.py, h5py. Collections are homogeneous in value kind (plus None). The reader's flag set is a permuted superset of the writer's.",
   "technique": "deterministic simulation of a writer process and a configuration-skewed reader process over real HDF5 storage; per-value read-back against the written history",
 }
 
 CLAIMED["C14"] = {
-  "text": "Seeded search over fuel-management histories on generated hex cores (1-3 rings, full/third symmetry, holes, stationary grid-plate blocks on/off, spent-fuel pool and tracking on/off): 4-40 operations per run (swap, cascade with None entries, discharge for a fresh or pooled assembly, add at a free location, remove/purge; plus rejected operations in their own configuration) executed by the real FuelHandler/Core; after every operation an inventory-ledger + location-map model is advanced and the statement's invariants are evaluated through the public API: children vs model, one assembly per location where the operation put it, location table == assemblies present, every live assembly/block found under its current name, purged ones never returned, block order/heights/dimensions/number densities unchanged up to the stationary exchange. Sampling, not proof.",
+  "text": "Seeded search over fuel-management histories on generated hex cores (1-3 rings, full/third symmetry, holes, stationary grid-plate blocks on/off, spent-fuel pool and tracking on/off): 4-40 operations per run (swap, cascade with None entries, discharge for a fresh or pooled assembly, add at a free location, remove/purge; plus rejected operations in their own configuration) executed by the real FuelHandler/Core; after every operation an inventory-ledger + location-map model is advanced and the statement's invariants are evaluated through the public API: children vs model, one assembly per location where the operation put it, location table == assemblies present, every live assembly/block found under its current name, purged ones never returned, block order/heights/dimensions/number densities unchanged up to the stationary exchange. Added later (DESIGN §13): Cartesian cores, self-swaps and duplicate cascade entries, two kinds of stationary blocks with misaligned plena (refusal must be entire), the stationary set taken from the settings, re-adding removed assemblies, adding a copy that carries a name the core holds. Sampling, not proof.",
   "design_ref": "DESIGN.md §4 (C14)",
   "note": "Trusted: models/shuffle.py (written from the statement). World B: single actor, no clock or I/O; what is simulated is the operation history and rejected operations.",
   "technique": "seeded model-based history search (deterministic simulation, single actor) against an inventory/location reference model, invariants after every operation",
 }
 
 CLAIMED["C16"] = {
-  "text": "Seeded search over edit/scope histories on generated hex cores: 8-60 steps per run mixing parameter assignments of every kind on every level, number-density / temperature / hex-pitch / block-height changes, retainState scopes opened on arbitrary objects with arbitrary keep-sets and nesting up to 4, scopes left normally or cancelled by an exception raised at a plan-chosen step inside them, cache computations, deep copies and pickle round trips followed by edits on one side, and the read-only switch followed by assignments. Model: a stack of (object, keep-set, snapshot of the subtree's observable state); on every exit the state must equal the snapshot except that kept parameters hold their inner values (LIFO across nesting); copies equal, independent, fresh serial numbers, no serial shared by live objects; read-only refuses every assignment and changes nothing. Sampling, not proof.",
+  "text": "Seeded search over edit/scope histories on generated hex cores: 8-60 steps per run mixing parameter assignments of every kind on every level, number-density / temperature / hex-pitch / block-height changes, retainState scopes opened on arbitrary objects with arbitrary keep-sets and nesting up to 4, scopes left normally or cancelled by an exception raised at a plan-chosen step inside them, cache computations, deep copies and pickle round trips followed by edits on one side, and the read-only switch followed by assignments. Model: a stack of (object, keep-set, snapshot of the subtree's observable state); on every exit the state must equal the snapshot except that kept parameters hold their inner values (LIFO across nesting); copies equal, independent, fresh serial numbers, no serial shared by live objects; read-only refuses every assignment and changes nothing. Added later (DESIGN §13): Cartesian cores and the pool's offset grid, scopes entered with empty caches and dimensions assigned directly, nested scopes keeping the same parameter, keep-sets restricted to one class's definitions, a linked dimension given a number inside a scope, link identity in copies, and setter calls (number density, temperature, height, rotation) on a read-only model. Sampling, not proof.",
   "design_ref": "DESIGN.md §4 (C16)",
   "note": "Trusted: the snapshot/diff code in worlds/c16.py. Observable state = parameters, number densities, temperatures, grid constructor arguments. Pickles are checked for equality and independence, serial-number freshness only for deep copies.",
   "technique": "seeded model-based history search (deterministic simulation, single actor) with interrupted scopes as the injected fault; stack-of-snapshots reference model",
 }
 
 CLAIMED["C01"] = {
-  "text": "Seeded search over structural edit histories: a generated hex core plus a pool of detached generic composites, and 10-70 steps per run of add / insert / remove / removeAll / setChildren on generic composites, add / insert / remove / reestablishBlockOrder / sort on assemblies, remove / re-add of components on blocks, deep copies and pickle round trips of arbitrary subtrees, and (own configuration) rejected operations. Model: handle -> (parent, ordered children). After every step the whole universe is compared with the model (single parent, listed exactly once, parent back-pointer, removed objects parent-less with a detached locator) and seed-chosen objects are queried through every traversal API (direct, deep, generation 1-4, predicates, flags exact/inexact, type names, leaf components, ancestors with distance) against a naive recursive walk of list(obj); copies are checked for equal shape, no shared node, re-linked parents, grids and locators. Sampling, not proof.",
+  "text": "Seeded search over structural edit histories: a generated hex core plus a pool of detached generic composites, and 10-70 steps per run of add / insert / remove / removeAll / setChildren on generic composites, add / insert / remove / reestablishBlockOrder / sort on assemblies, remove / re-add of components on blocks, deep copies and pickle round trips of arbitrary subtrees, and (own configuration) rejected operations. Model: handle -> (parent, ordered children). After every step the whole universe is compared with the model (single parent, listed exactly once, parent back-pointer, removed objects parent-less with a detached locator) and seed-chosen objects are queried through every traversal API (direct, deep, generation 1-4, predicates, flags exact/inexact, type names, leaf components, ancestors with distance) against a naive recursive walk of list(obj); copies are checked for equal shape, no shared node, re-linked parents, grids and locators. Added later (DESIGN §13): Cartesian cores and pin lattices, replaceBlockWithBlock (also repeatedly from one replacement), assemblies leaving the core (tracked discharge or removal), setChildren from a lazy iterator over the own children, exact/inexact ancestor flag queries, sub-locations of removed multi-location objects, and a final add of an object that still has a parent. Sampling, not proof.",
   "design_ref": "DESIGN.md §4 (C01)",
   "note": "Trusted: the naive walkers in worlds/c01.py. add/insert only receive detached objects that are not ancestors of the target; raw append/extend are never used; block edits keep blocks physically meaningful.",
   "technique": "seeded model-based history search (deterministic simulation, single actor) against a parent/child-map reference model and a naive tree walker",
 }
 
 CLAIMED["C12"] = {
-  "text": "Seeded search over expansion histories on generated pin-type assemblies with a top dummy block (grid plate on/off, 1-4 fuel blocks, plenum on/off, seed-chosen heights): 3-25 steps per run of prescribed expansion of arbitrary solid-component subsets by factors in [0.9,1.12], uniform growth of all solids of seed-chosen blocks, steps followed by their inverse, and thermal expansion by a seed-chosen temperature field, executed by the real AxialExpansionChanger. Ledger checked after every step: total height, contiguity and positivity, centre elevations, axial indices, grid bounds == elevations, block top == top of its target component, target-component mass per step, every solid's mass under uniform growth, uniform step + inverse restores heights/densities/masses, axially linked components stacked bottom-on-top. Sampling, not proof.",
+  "text": "Seeded search over expansion histories on generated pin-type assemblies with a top dummy block (grid plate on/off, 1-4 fuel blocks, plenum on/off, seed-chosen heights): 3-25 steps per run of prescribed expansion of arbitrary solid-component subsets by factors in [0.9,1.12], uniform growth of all solids of seed-chosen blocks, steps followed by their inverse, and thermal expansion by a seed-chosen temperature field, executed by the real AxialExpansionChanger. Ledger checked after every step: total height, contiguity and positivity, centre elevations, axial indices, grid bounds == elevations, block top == top of its target component, target-component mass per step, every solid's mass under uniform growth, uniform step + inverse restores heights/densities/masses, axially linked components stacked bottom-on-top. Added later (DESIGN §13): blueprint-designated and per-block (public setter) targets, temperature fields including 0 C with an independent growth oracle, prescribed-growth oracle, Cartesian assemblies with a duct-only shield block over a Rectangle duct, a Custom-material liner, the changer's low-level calls after a refused prescription, and an over-growth step (refusal must be clean). Sampling, not proof.",
   "design_ref": "DESIGN.md §4 (C12)",
   "note": "Trusted: the ledger code in worlds/c12.py. Tolerance 1e-10 relative. Steps predicted to consume the dummy block are skipped; a loud ArithmeticError (negative block height) from armi ends the history as a legal refusal.",
   "technique": "seeded model-based history search (deterministic simulation, single actor) against a height/contiguity/mass ledger checked after every expansion step",
 }
 
 CLAIMED["C13"] = {
-  "text": "Seeded search over conversion histories on generated third-core hex reactors (2-4 rings, holes incl. a missing centre, 1-2 fuel blocks): 3-14 steps per run of convert / restore / addEdge / removeEdge / parameter edits in every order the API accepts. After convert: the full-core cell set must equal the third-core cell centres rotated by 0/+120/-120 degrees (independent geometry), names unique, no shared descendants, look-ups resolve, and counts / nuclide masses / volume / volume-integrated totals are three times the third-core values with the centre once. After restore, and after add + remove edge assemblies: a by-identity state digest (assemblies, places, every parameter, number densities, temperatures, grids, symmetry, name/location look-ups) equals the digest taken before. Sampling, not proof.",
+  "text": "Seeded search over conversion histories on generated third-core hex reactors (2-4 rings, holes incl. a missing centre, 1-2 fuel blocks): 3-14 steps per run of convert / restore / addEdge / removeEdge / parameter edits in every order the API accepts. After convert: the full-core cell set must equal the third-core cell centres rotated by 0/+120/-120 degrees (independent geometry), names unique, no shared descendants, look-ups resolve, and counts / nuclide masses / volume / volume-integrated totals are three times the third-core values with the centre once. After restore, and after add + remove edge assemblies: a by-identity state digest (assemblies, places, every parameter, number densities, temperatures, grids, symmetry, name/location look-ups) equals the digest taken before. Added later (DESIGN §13): rings up to 5, reused changer objects, trackAssems on/off, stale name tables and block/assembly volumes in the digest, restore with nothing pending, observations while edge assemblies are present, a solver running with edge assemblies and an explicit scaling subset, earlier rotations and six-valued boundary data, copy rotation, the x3 ledger with edge assemblies and a block-by-block centre ledger against a model of armi's mark bookkeeping. Sampling, not proof.",
   "design_ref": "DESIGN.md §4 (C13)",
   "note": "Trusted: the rotation geometry and digest code in worlds/c13.py. 1e-12 relative; monotone counters are not state; parameter edits are made only while no conversion is pending.",
   "technique": "seeded model-based history search (deterministic simulation, single actor) with an independent rotation-geometry oracle, a x3 ledger and before/after state digests",
 }
 
 CLAIMED["C02"] = {
-  "text": "Seeded search over composition-edit histories (weakest fit: the laws are pointwise, the history selects the states) on generated hex cores incl. third-core models with the cut centre assembly: 4-30 edits per run (setNumberDensity, updateNumberDensities, setNumberDensities, changeNDensByFactor, setMassFrac, addMass, setMass, removeMass) at component / block / assembly / core level. After every edit: the edit's own read-back law (requested value read back at the same level, every other nuclide unchanged; mass-fraction edits keep total density and the others' proportions) and, from per-component primitives, mass = density x volume / symmetry factor, mass / volume / atoms additivity at block, assembly and core level, nuclide-list and element selections, mass fractions summing to one and equal to mass ratios, and the density <-> mass-fraction conversions being mutual inverses. Sampling, not proof.",
+  "text": "Seeded search over composition-edit histories (weakest fit: the laws are pointwise, the history selects the states) on generated hex cores incl. third-core models with the cut centre assembly: 4-30 edits per run (setNumberDensity, updateNumberDensities, setNumberDensities, changeNDensByFactor, setMassFrac, addMass, setMass, removeMass) at component / block / assembly / core level. After every edit: the edit's own read-back law (requested value read back at the same level, every other nuclide unchanged; mass-fraction edits keep total density and the others' proportions) and, from per-component primitives, mass = density x volume / symmetry factor, mass / volume / atoms additivity at block, assembly and core level, nuclide-list and element selections, mass fractions summing to one and equal to mass ratios, and the density <-> mass-fraction conversions being mutual inverses. Added later (DESIGN §13): Cartesian cores with an independent 'which fraction is modelled' oracle, third-core maps with holes and 5 rings with atomic add/remove of edge assemblies, a caller mutating the dict it passed, a heated solid followed by an area look and the law volume = area x height, dummy/lumped nuclides, a one-piece solid bottom block with cold-area queries. Sampling, not proof.",
   "design_ref": "DESIGN.md §4 (C02)",
   "note": "Trusted: the ledger arithmetic in worlds/c02.py; atomic weights and Avogadro's constant come from armi's tables (C19's subject). 1e-9 relative on sums.",
   "technique": "seeded model-based history search (deterministic simulation, single actor); composition ledger and additivity laws evaluated after every edit",
 }
 
 CLAIMED["C03"] = {
-  "text": "Seeded search over temperature paths (weakest fit: the law is pointwise, the history is the path): every run takes one (2-D shape class, library material) pair - 11 shapes x 37 materials that armi can expand (22 solids with an expansion correlation, 15 fluids/custom), all pairs covered round-robin by run index - with seed-chosen cold dimensions, input temperature inside the material's stated range, a path of 2-8 temperatures, hot and cold setDimension calls, a companion component with a linked dimension, and a second path to the same end temperature. At every path point: each expanding dimension == cold value x linear factor recomputed independently from the material's percent correlation; area ratio == factor^2; number densities / factor^2; mass per unit height constant; setDimension reads back; the linked dimension follows its target; fluids/custom keep their dimensions; two paths to the same temperature give the same area and densities. Sampling, not proof.",
+  "text": "Seeded search over temperature paths (weakest fit: the law is pointwise, the history is the path): every run takes one (2-D shape class, library material) pair - 11 shapes x 37 materials that armi can expand (22 solids with an expansion correlation, 15 fluids/custom), all pairs covered round-robin by run index - with seed-chosen cold dimensions, input temperature inside the material's stated range, a path of 2-8 temperatures, hot and cold setDimension calls, a companion component with a linked dimension, and a second path to the same end temperature. At every path point: each expanding dimension == cold value x linear factor recomputed independently from the material's percent correlation; area ratio == factor^2; number densities / factor^2; mass per unit height constant; setDimension reads back; the linked dimension follows its target; fluids/custom keep their dimensions; two paths to the same temperature give the same area and densities. Added later (DESIGN §13): fine ramps of tiny steps, assignments through a link, expansion-factor queries between explicit temperatures, explicit compositions for solids without reference composition, one composition dict shared by two components, a chain of two links and a link replaced by its current value. Sampling, not proof.",
   "design_ref": "DESIGN.md §4 (C03)",
   "note": "Trusted: worlds/c03.py arithmetic. Materials without a linear-expansion-percent correlation (15 of the library) are excluded because armi itself refuses hot dimensions for them (RuntimeError). 1e-10 relative.",
   "technique": "seeded history search over temperature paths (deterministic simulation, single actor, swarm over shape x material); conservation ledger along the path and path-independence check",
